@@ -63,7 +63,16 @@ def run(db, chk) -> None:
                      lambda I: {"cls": Obj("cls", cls=cls), "sym_table": T.P("sym_table")})
     chk.analysed_add("functions", ref2)
     ok_runs = [r for r in runs if r.raised is None]
-    if len(ok_runs) != 1 or not isinstance(ok_runs[0].ret, PyTuple) or len(ok_runs[0].ret.items) != 4 or len(hook.calls) != 2:
+    if len(ok_runs) == 1 and isinstance(ok_runs[0].ret, PyTuple) and len(ok_runs[0].ret.items) == 4 and len(hook.calls) == 1:
+        # only the device rows were merged: whatever compute_time is, it is not the measure of merged COMPUTATION intervals
+        from ..specs.merge import merged_frame_of
+        c1 = hook.calls[0]
+        kt_expected = KT.kernel_type_term(db, ("getitem", T.P("sym_table"), T.col(TR, "name")))
+        M2 = merged_frame_of((TR, T.and_(c1["arg_ctx"][1], T.cmp("==", kt_expected, T.C("COMPUTATION"))), None), T.col(TR, "ts"), T.col(TR, "dur"))
+        comp = to_term(ok_runs[0].ret.items[1])
+        check_term(chk, "C04.R2-arithmetic", "2nd result: compute_time = measure of the union (merge_kernel_intervals) of the COMPUTATION rows", where2, comp, [busy_term(M2)],
+                   "the overlap groups of ALL device rows are not the overlap groups of the computation rows: re-using them counts gaps between computation kernels that other kernels bridge")
+    elif len(ok_runs) != 1 or not isinstance(ok_runs[0].ret, PyTuple) or len(ok_runs[0].ret.items) != 4 or len(hook.calls) != 2:
         chk.ob("C04.R2-arithmetic", "idle_time_per_rank: one normal path, two merges, four results", None, where2,
                found=f"paths={len(ok_runs)} merges={len(hook.calls)}")
     else:
@@ -73,12 +82,12 @@ def run(db, chk) -> None:
         # device predicate: truth table over the stream values the property allows
         tt = {}
         try:
-            for sv in (-1, 1, 7, 20):
+            for sv in (-1, 0, 1, 7, 20):
                 tt[sv] = bool(T.evaluate(P1, lambda leaf, sv=sv: sv if leaf == T.col(TR, "stream") else (_ for _ in ()).throw(T.Unknown(leaf))))
-            okp = tt == {-1: False, 1: True, 7: True, 20: True}
-            chk.ob("C04.R2-device-rows", "device rows = predicate true for positive streams, false for stream -1", okp, where2,
-                   found={"predicate": T.show(P1), "truth_table": tt}, accepted={-1: False, 1: True, 7: True, 20: True},
-                   why="host rows in the sweep (or device rows missing) change span and idle")
+            okp = tt == {-1: False, 0: True, 1: True, 7: True, 20: True}
+            chk.ob("C04.R2-device-rows", "device rows = every stream except -1 (stream 0 included: this property makes no assumption about stream ids)", okp, where2,
+                   found={"predicate": T.show(P1), "truth_table": tt}, accepted={-1: False, 0: True, 1: True, 7: True, 20: True},
+                   why="host rows in the sweep (or device rows missing, e.g. activities on stream 0 - this property does not presuppose positive stream ids) change span and idle")
         except T.Unknown as u:
             chk.ob("C04.R2-device-rows", "device rows predicate reads only the stream column", False, where2, found=T.show(P1),
                    accepted="a predicate over stream alone", why="a predicate that also looks at dur/cat drops device activities (e.g. zero-length ones at the span's ends)")
